@@ -51,9 +51,15 @@ impl E {
     }
 }
 
+/// the k-th clone (0-based) of an element panics
+pub static CLONE_CRASH: AtomicUsize = AtomicUsize::new(usize::MAX);
+
 impl Clone for E {
     fn clone(&self) -> Self {
-        CLONES.fetch_add(1, Ordering::SeqCst);
+        let k = CLONES.fetch_add(1, Ordering::SeqCst);
+        if k == CLONE_CRASH.load(Ordering::SeqCst) {
+            panic!("harness: injected closure panic (the clone of an element)");
+        }
         E { payload: self.payload, orig: false }
     }
 }
